@@ -1229,6 +1229,119 @@ def r01r(rep, F):
     rep.require_count('R01r', 'validated-prefix checks', n, 5)
 
 
+APPENDS = ('PathGeometric::append', 'PathControl::append')
+
+
+def _nearest_loop(f, nid):
+    return next((a['id'] for a in f.ancestors(nid) if a['k'] in ('ForStmt', 'WhileStmt', 'DoStmt', 'CXXForRangeStmt')), None)
+
+
+def _self_step(f, lp):
+    """locals X with an assignment X = <expression rooted at X> in this loop's own body or increment (not in a nested loop):
+    X = X->parent, X = X->getParent(), pos = prev[pos]"""
+    out = {}
+    for root in (lp.get('body'), lp.get('inc')):
+        if not root:
+            continue
+        for n in f.walk(root):
+            if n['k'] == 'BinaryOperator' and n.get('op') == '=' and _nearest_loop(f, n['id']) == lp['id']:
+                l = f.strip(n['ch'][0])
+                if l is None or l['k'] not in ('DeclRefExpr', 'MemberExpr') or f.fp(l['id']).startswith('this.'):
+                    continue
+                k = f.fp(l['id'])
+                if '#' in k and k in f.fp(n['ch'][1]):
+                    out[k] = n
+    return out
+
+
+def r01w(rep, F, rule='R01w', pat=('/geometric/planners/', '/multilevel/'), frozen=33):
+    rep.rule(rule, 'the reported path is assembled root first: a node list filled by walking parent links from a solution node (L.push_back(X); '
+                   'X = X->parent) holds the leaf first and the tree root last, so (a) the first list appended to a path is traversed '
+                   'backwards (decreasing index or reverse iterator) and (b) a second list -- the other tree of a bidirectional planner -- '
+                   'forwards, so that the path runs root, ..., leaf, leaf, ..., root; (c) a loop that appends while walking parent or '
+                   'predecessor links (PRM, SPARS, the multilevel graph) is followed by reverse() on the same path.  std::reverse on the '
+                   'list flips its orientation.  A path assembled the other way round starts at the goal (or jumps from a leaf to the '
+                   'other tree\'s root): it has the same states, the same length in a symmetric space and passes check(), but it is not a '
+                   'path from a start state to the goal')
+    n = 0
+    for f in F.functions:
+        if not f.body or not f.file.endswith('.cpp') or not any(q in f.file for q in pat):
+            continue
+        loops = [x for x in f.walk() if x['k'] in ('WhileStmt', 'ForStmt', 'DoStmt', 'CXXForRangeStmt') and x.get('body')]
+        orient = {}          # list key -> 'leaf-first'
+        events = {}          # path key -> [(line, kind, detail)]
+        for lp in loops:
+            if lp['k'] == 'CXXForRangeStmt':
+                continue
+            steps = _self_step(f, lp)
+            if not steps:
+                continue
+            for c in f.walk(lp['body']):
+                cal = c.get('callee') or ''
+                if _nearest_loop(f, c['id']) != lp['id']:
+                    continue
+                if cal.endswith('::push_back') and len(args(f, c)) == 1 and any(k in f.fp(args(f, c)[0]) for k in steps):
+                    L = f.strip(c['ch'][0]) if c['k'] == 'CXXMemberCallExpr' else None
+                    lk = nofp(f.fp(L['id'])) if L is not None else None
+                    if lk:
+                        orient[lk] = 'leaf-first'
+                elif cal.endswith(APPENDS) and any(k in f.fp(args(f, c)[0]) for k in steps):
+                    pk = f.fp(c['ch'][0])
+                    events.setdefault(pk, []).append((f.line(lp), 'LR', 'appends while walking the links', lp))
+        # std::reverse(L.begin(), L.end())
+        flips = []
+        for c in f.walk():
+            if (c.get('callee') or '') == 'std::reverse' and c['ch']:
+                m = re.search(r'begin\((\w[\w.]*)\)', nofp(f.fp(c['ch'][-2] if len(c['ch']) >= 2 else c['ch'][0])))
+                if m:
+                    flips.append((f.line(c), m.group(1)))
+        for lp in loops:
+            apps = [c for c in f.walk(lp['body']) if (c.get('callee') or '').endswith(APPENDS) and
+                    next((a['id'] for a in f.ancestors(c['id']) if a['k'] in ('ForStmt', 'WhileStmt', 'DoStmt', 'CXXForRangeStmt')), None) == lp['id']]
+            if not apps:
+                continue
+            a0 = nofp(f.fp(args(f, apps[0])[0]))
+            pk = f.fp(apps[0]['ch'][0])
+            lst, fwd = None, None
+            if lp['k'] == 'CXXForRangeStmt':
+                lst = nofp(f.fp(lp['range'])) if lp.get('range') else None
+                fwd = True
+            elif lp['k'] == 'ForStmt':
+                idx, start, cond, stride = for_loop(f, lp)
+                m = re.search(r'operator\[\]\((\w[\w.]*),\(?%s' % re.escape(nofp(idx)), a0) if idx is not None else None
+                if m and stride in (1, -1):
+                    lst, fwd = m.group(1), stride == 1
+                elif 'reverse_iterator::operator*' in a0 and lp.get('init'):
+                    m = re.search(r'rbegin\((\w[\w.]*)\)', nofp(f.fp(lp['init'])))
+                    if m:
+                        lst, fwd = m.group(1), False
+            if lst is None or lst not in orient:
+                continue
+            nflip = len([1 for (ln, l) in flips if l == lst and ln < f.line(lp)])
+            leaf_first = (nflip % 2 == 0)
+            seq = 'LR' if leaf_first == fwd else 'RL'
+            events.setdefault(pk, []).append((f.line(lp), seq, 'list %s traversed %s' % (lst, 'forwards' if fwd else 'backwards'), lp))
+        for pk, evs in events.items():
+            evs.sort(key=lambda e: e[0])
+            revs = [f.line(c) for c in f.walk() if (c.get('callee') or '').endswith(('PathGeometric::reverse', 'PathControl::reverse'))
+                    and c['k'] == 'CXXMemberCallExpr' and f.fp(c['ch'][0]) == pk and f.line(c) >= evs[-1][0]]
+            seqs = [e[1] for e in evs]
+            if revs:
+                seqs = [{'LR': 'RL', 'RL': 'LR'}[q] for q in reversed(seqs)]
+            n += 1
+            ok = seqs in (['RL'], ['RL', 'LR'])
+            if ok:
+                det = 'root first: ' + '; then '.join(e[2] for e in evs) + (' ; then reverse()' if revs else '')
+            elif seqs[0] == 'LR' and len(seqs) == 1:
+                det = ('%s, i.e. leaf first and the tree root last%s: the reported path starts at the solution node and ends at the root of the '
+                       'tree' % (evs[0][2], '' if not revs else ' after reverse()'))
+            else:
+                det = ('the pieces appended to %s run %s (R = root, L = leaf): the path must run root..leaf then leaf..root' %
+                       (nofp(pk), ' + '.join('%s..%s' % (q[0], q[1]) for q in seqs)))
+            rep.add(rule, f.name, 'assembly-orientation:%s@%d' % ((re.findall(r'(\w+)#\d+', pk) or re.findall(r'this\.(\w+)', pk) or ['path'])[-1], [k for k in sorted(events, key=lambda q: events[q][0][0])].index(pk)), ok, f.where(evs[0][3]), det)
+    rep.require_count(rule, 'path assemblies from parent-walk lists', n, frozen)
+
+
 def run(rep):
     units = P.geometric_units() + P.multilevel_units() + P.base_units() + [facts.src('base', 'goals', 'src', g) for g in
                                                                           ('GoalRegion.cpp', 'GoalState.cpp', 'GoalStates.cpp')]
@@ -1261,6 +1374,7 @@ def run(rep):
     r01n(rep, F)
     r01o(rep, F)
     r01r(rep, F)
+    r01w(rep, F)
     # R01s: the (best distance / cost, what it belongs to) pairing rule of C04 (R04j), evaluated here over every geometric planner:
     # the reported goal difference and the path / node / flag it describes are updated together
     from rules import c04
